@@ -430,8 +430,45 @@ class Engine:
         self.clobber_pre = {}        # havoc atom -> value the location had before the clobbering call
         self.clobber_origin = {}     # havoc atom -> location it stands for (value after a call that may have written it)
         self.restore_invariants = True
+        self.definitions = {}        # result term of a call to a side-effect free, single-path accessor -> the value it computes
         self.auto_inline = True      # inline helpers that did not exist when the rules were written (known_functions.json)
         self.auto_inlined = set()
+
+    def is_accessor(self, name):
+        """a function with a body that only computes: no store through a pointer or into a global, no call, no loop"""
+        c = self.__dict__.setdefault('_acc_cache', {})
+        if name not in c:
+            u, f = self.find_fn(name)
+            ok = f is not None and u.body(name) is not None
+            if ok:
+                kinds = {cast.kind(x) for x in cast.walk(u.body(name))}
+                ok = not (kinds & {'CallExpr', 'WhileStmt', 'ForStmt', 'DoStmt', 'GotoStmt', 'SwitchStmt'}) and self.is_pure(name)
+            c[name] = ok
+        return c[name]
+
+    def definition_facts(self, lins):
+        """equalities result == value for the accessor calls whose results occur in the given linear forms"""
+        out, seen, todo = [], set(), list(lins)
+        for _ in range(3):
+            nxt = []
+            for l in todo:
+                if not isinstance(l, Lin):
+                    l = l[1] if isinstance(l, tuple) and len(l) == 2 and isinstance(l[1], Lin) else None
+                if l is None:
+                    continue
+                for a in l.atoms():
+                    if isinstance(a, tuple) and a in self.definitions and a not in seen:
+                        seen.add(a)
+                        try:
+                            d = Lin.atom(a) - linearize(self.definitions[a])
+                        except Exception:      # noqa: BLE001 - a value outside linear arithmetic gives no fact
+                            continue
+                        out += [d, -d]
+                        nxt.append(d)
+            todo = nxt
+            if not todo:
+                break
+        return out
 
     def is_new_helper(self, name):
         """a function with a body in the analysed units that is not in the frozen table of functions the rules were
@@ -766,6 +803,8 @@ class Engine:
     def entails(self, path_or_facts, goal, extra=()):
         facts = self.path_facts(path_or_facts) if isinstance(path_or_facts, Path) else list(path_or_facts)
         facts = facts + list(extra)
+        if self.definitions:
+            facts = facts + self.definition_facts(facts + [goal])
         lins = self._strengthen(facts + [('ne', goal)] if False else facts)
         lins += self.nonneg_facts([goal])
         lins += division_axioms([goal])
@@ -870,6 +909,8 @@ class Engine:
         facts = self.path_facts(conds) + list(extra)
         if not facts:
             return True
+        if self.definitions:
+            facts = facts + self.definition_facts(facts)
         lins = self._strengthen(facts)
         r = lin.infeasible(lins)
         return not r
@@ -2059,6 +2100,15 @@ class _Activation:
             s2 = s.copy()
             res = ('call', desc, tuple(vals), next(_uid))
             self.e.types[res] = cast.qual_type(n)
+            if name is not None and self.depth < self.e.inline_depth + 2 and self.e.is_accessor(name):
+                # the call stays the event it is; what it computes is kept as a fact about its result
+                try:
+                    u2, f2 = self.e.find_fn(name)
+                    alts_ = self.inline_call(u2, name, vals, s.copy(), n)
+                    if len(alts_) == 1 and isinstance(alts_[0][1], tuple) and alts_[0][1][0] != 'struct':
+                        self.e.definitions[res] = alts_[0][1]
+                except (Unsupported, PathLimit):
+                    pass
             ef = Effect(kind_, desc, tuple(vals), n, res, chain=chain)
             ef.inloop = s2.loopdepth
             ef.frame = self.prefix
